@@ -11,6 +11,8 @@ An entry is a dict
     prod    spec the PRODUCER builds, hashes, compares and pickles
     cons    spec the CONSUMER builds "from source" (identical to prod except in `variant` entries,
             where it is an equal expression built differently)
+    prod_shared / cons_shared  (optional) build that side with vf.spec.build_shared: equal
+            sub-specs become one shared object instead of separate equal objects
     tags    node tags occurring in prod (used to attribute a nested failure to a simpler one)
     vars    (compiled only) spec of the `variables` argument or None
 """
@@ -228,6 +230,16 @@ def extra_entries():
     # shared sub-object (pickle memo) -- built through build(), equal sub-specs
     sh = ("Power", ("Sum", T(X, Y)), C(2))
     add("shared", ("Sum", T(sh, sh, ("Quotient", sh, sh))))
+    # repeated composite subtrees: built with one shared object (vf.spec.build_shared) or with
+    # separate equal objects (vf.spec.build) -- see the `shared` variants
+    sm = ("Sum", T(X, Y))
+    add("share-product-call", ("Sum", T(("Product", T(sm, sm)), ("Call", V("f"), T(sm)))))
+    add("share-kw", ("CallWithKwargs", V("f"), T(sm), ("map", ("k", sm), ("j", sm))))
+    add("share-cse", ("Sum", T(("CommonSubexpression", sm, NONE, SCOPE_EVAL),
+                               ("Power", ("CommonSubexpression", sm, NONE, SCOPE_EVAL), C(2)))))
+    add("share-if", ("If", ("Comparison", sm, S("<"), C(0)), ("BitwiseNot", sm), sm))
+    add("share-user", ("U:vf.usercls_gen.ExpD1D1", sm, ("Sum", T(sm, C(1)))))
+    add("share-legacy", ("U:vf.usercls_gen.ExpLL", sm, ("Quotient", sm, sm)))
     return out
 
 
@@ -253,6 +265,25 @@ def user_entries():
     return out
 
 
+FLAT_VALUES = {"name": S("x"), "u": C(11), "w": S("tag")}
+
+
+def user_flat_entries(tier="thorough"):
+    """User nodes whose fields / init args are all plain str / int (a state made of names and
+    numbers only), for every class whose fields allow it (quick: only the classes with an
+    undecorated or init-args level in their hierarchy)."""
+    import vf.usercls_gen as u
+    out = []
+    for name, info in u.CLASSES.items():
+        if not info["fields"] or not all(f in FLAT_VALUES for f in info["fields"]):
+            continue
+        if tier == "quick" and not ({"L", "U"} & set(info["kinds"])):
+            continue
+        spec = (class_tag(info["cls"]), *[FLAT_VALUES[f] for f in info["fields"]])
+        out.append(_entry(f"userflat:{name}", f"{name}:flat", "user", spec))
+    return out
+
+
 def user_nest_entries(tier):
     """User nodes as children of built-in nodes and built-in nodes in the fields of user nodes."""
     import vf.usercls_gen as u
@@ -274,6 +305,12 @@ def user_nest_entries(tier):
             continue        # quick: inside a keyword mapping only the init-args classes
         out.append(_entry(f"nest:CallKw02[2]:{nm}", f"CallKw02[2]:{nm}", "nest",
                           ("CallWithKwargs", V("f"), T(), ("map", ("k", Z), ("j", s)))))
+    for e in user_flat_entries(tier):
+        nm = e["name"][9:]
+        if tier == "quick" and "L" not in u.CLASSES[nm]["kinds"]:
+            continue
+        out.append(_entry(f"nest:Sum2[0]:flat:{nm}", f"Sum2[0]:{nm}:flat", "nest",
+                          ("Sum", T(e["prod"], ("Product", T(C(2), e["prod"])), Z))))
     return out
 
 
@@ -345,7 +382,26 @@ def variant_entries(base_entries):
             if e["family"] != "nest":
                 out.append(_entry(f"variant:{vn}-rev:{e['name']}", f"{vn}-rev:{e['label']}",
                                   "variant", v, e["prod"], variant=vn, base=e["name"]))
+        # same spec, equal sub-expressions as ONE object on one side and as separate objects on
+        # the other (pickle keeps sharing, so the unpickled object has the producer's form)
+        if e["family"] != "nest" and has_repeated_composite(e["prod"]):
+            out.append(_entry(f"variant:shared:{e['name']}", f"shared:{e['label']}", "variant",
+                              e["prod"], variant="shared", base=e["name"], prod_shared=True))
+            out.append(_entry(f"variant:shared-rev:{e['name']}", f"shared-rev:{e['label']}",
+                              "variant", e["prod"], variant="shared", base=e["name"],
+                              cons_shared=True))
     return out
+
+
+def has_repeated_composite(spec):
+    """Some node with a node beneath it occurs twice (build_shared then differs from build)."""
+    seen = set()
+    for c in walk(spec):
+        if c[0][0].isupper() and any(k[0][0].isupper() for k in walk(c) if k is not c):
+            if c in seen:
+                return True
+            seen.add(c)
+    return False
 
 # }}}
 
@@ -415,7 +471,7 @@ _POOLS = {}
 def pool(tier):
     if tier not in _POOLS:
         base = (single_entries() + extra_entries() + arith_entries() + user_entries()
-                + nest_entries(tier) + user_nest_entries(tier))
+                + user_flat_entries(tier) + nest_entries(tier) + user_nest_entries(tier))
         allp = base + variant_entries(base) + compiled_entries(tier)
         names = [e["name"] for e in allp]
         if len(set(names)) != len(names):
